@@ -17,7 +17,6 @@ NOT_APPLICABLE = {
     "C13": "exactness of fuse_slice/_compose_slices/_slice_1d is integer arithmetic with sign and emptiness corner cases - a solver or enumeration problem (different technique family), not a code-shape property",
     "C14": "'has the normalized chunks and the same values' is arithmetic over chunk tuples plus array values; its one structural ingredient (the unknown-size refusal in _validate_rechunk always runs) is checked under C28",
     "C15": "plan validity and the block-size budget are inequalities over products of chunk sizes (runtime integers); no sound static bound is in reach",
-    "C16": "normalized layouts within a byte limit are integer arithmetic over shapes and limits; the runtime guards in normalize_chunks are validation, not a static proof of the auto-chunking bounds",
     "C18": "independence from chunking and tree shape is associativity/commutativity of numerical combine functions over values - not visible in code shape",
     "C19": "window/scan kernels against their NumPy definitions: values and index arithmetic (_block_plan, depth/boundary maths)",
     "C22": "parity between Rust layers and Python _layer() is semantic equivalence of two programs in two languages; no Rust front end is installed, the extension is not built here, and the one cheap cross-language fact (build generation constants equal) is a fail-safe, not a necessary condition",
